@@ -56,6 +56,7 @@ var harmless = map[string]bool{
 	"os.FileMode": true, "os.FileInfo": true, "os.File": true, "os.PathError": true, "os.IsNotExist": true, "os.IsExist": true,
 	"os.IsPermission": true, "os.ErrNotExist": true, "os.ErrExist": true, "os.O_RDONLY": true, "os.O_WRONLY": true,
 	"os.O_RDWR": true, "os.O_CREATE": true, "os.O_TRUNC": true, "os.O_APPEND": true, "os.O_EXCL": true, "os.PathSeparator": true,
+	"io/ioutil.ReadAll": true, "io/ioutil.Discard": true, "io/ioutil.NopCloser": true,
 	"os.ModePerm": true, "os.ErrClosed": true, "os.LinkError": true, "os.SyscallError": true, "os.ModeDir": true,
 }
 
